@@ -5,8 +5,7 @@
     * `bufio.Scanner`/`ScanLines` line splitting (LF, one trailing CR dropped), `trimSpace`, `nextWord`;
     * `parseLine` (markers, `@…` host rejected, missing fields, key blob base64 → opaque key via the
       harness-supplied table `KeyTab`, key-type check), `hostKeyDB.parseLine` (revoked map, hashed vs plain);
-    * `newHostnameMatcher`, `wildcardMatch` (Go's recursion; NOTE a trailing `*` needs ≥ 1 character —
-      see Props), `hostPatterns.match`, `hashedHost.match` (HMAC-SHA1 over `Normalize(addr.String())`);
+    * `newHostnameMatcher`, `wildcardMatch` (Go's recursion, `*` tried against every suffix incl. the empty one), `hostPatterns.match`, `hashedHost.match` (HMAC-SHA1 over `Normalize(addr.String())`);
     * `check` / `checkAddr` / `IsHostAuthority` / `IsRevoked`, `CertChecker.CheckHostKey` + `CheckCert`;
     * `Normalize`, `Line`, `HashHostname` (salt is a parameter), `encodeHash`/`decodeHash`.
   Stand-ins for stdlib code (validated differentially by their own ops): `net.SplitHostPort`,
@@ -91,16 +90,12 @@ def b64Val (c : UInt8) : Option Nat :=
 
 def b64Encode : Bytes → Bytes
   | [] => []
-  | [a] =>
-    let x := a.toNat
-    [b64Enc (x / 4), b64Enc (x % 4 * 16), cEQ, cEQ]
+  | [a] => [b64Enc (a.toNat / 4), b64Enc (a.toNat % 4 * 16), cEQ, cEQ]
   | [a, b] =>
-    let x := a.toNat; let y := b.toNat
-    [b64Enc (x / 4), b64Enc (x % 4 * 16 + y / 16), b64Enc (y % 16 * 4), cEQ]
+    [b64Enc (a.toNat / 4), b64Enc (a.toNat % 4 * 16 + b.toNat / 16), b64Enc (b.toNat % 16 * 4), cEQ]
   | a :: b :: c :: rest =>
-    let x := a.toNat; let y := b.toNat; let z := c.toNat
-    b64Enc (x / 4) :: b64Enc (x % 4 * 16 + y / 16) :: b64Enc (y % 16 * 4 + z / 64) :: b64Enc (z % 64)
-      :: b64Encode rest
+    b64Enc (a.toNat / 4) :: b64Enc (a.toNat % 4 * 16 + b.toNat / 16)
+      :: b64Enc (b.toNat % 16 * 4 + c.toNat / 64) :: b64Enc (c.toNat % 64) :: b64Encode rest
 
 /-- quanta of 4 alphabet characters; the last may be `xx==` or `xxx=`; trailing bits are not checked
     (Go's non-strict mode) -/
@@ -187,23 +182,23 @@ def normalize (address : Bytes) : Bytes :=
 
 /-! ## wildcard matching (the Go recursion) -/
 
-/-- `for j := range str { if f(str[j:]) { return true } }; return false` — every NON-EMPTY suffix -/
-def anyNESuffix (f : Bytes → Bool) : Bytes → Bool
-  | [] => false
-  | c :: cs => f (c :: cs) || anyNESuffix f cs
+/-- `for j := 0; j <= len(str); j++ { if f(str[j:]) { return true } }; return false` — every suffix,
+    the empty one included -/
+def anySuffix (f : Bytes → Bool) : Bytes → Bool
+  | [] => f []
+  | c :: cs => f (c :: cs) || anySuffix f cs
 
-/-- `wildcardMatch(pat, str)`.  Structural recursion on the pattern (so it terminates); the loop of the Go
-    function is the `?`/literal case, the recursive call inside `for j := range str` is `anyNESuffix`. -/
+/-- `wildcardMatch(pat, str)`.  Structural recursion on the pattern (so it terminates); `*` is handled
+    before the empty-string test, the recursive call inside the `for j` loop is `anySuffix`, the loop of
+    the Go function is the `?`/literal case. -/
 def wildcardMatch : Bytes → Bytes → Bool
   | [], s => s.isEmpty
   | p :: ps, s =>
-    match s with
-    | [] => false
-    | c :: cs =>
-      if p == cSTAR then
-        if ps.isEmpty then true else anyNESuffix (wildcardMatch ps) (c :: cs)
-      else if p == cQM || p == c then wildcardMatch ps cs
-      else false
+    if p == cSTAR then
+      if ps.isEmpty then true else anySuffix (wildcardMatch ps) s
+    else match s with
+      | [] => false
+      | c :: cs => if p == cQM || p == c then wildcardMatch ps cs else false
 
 /-! ## matchers -/
 
